@@ -56,6 +56,27 @@ struct Comp {
 }
 
 impl Comp {
+    /// members of one Concat / Alt share the flag state progressively (an inline `(?i)` affects what
+    /// follows it up to the end of the enclosing group); every other construct scopes it
+    fn seq(&mut self, v: &[Node], fl: &mut Fl, alt: bool) -> Vec<R> {
+        v.iter()
+            .map(|c| match c {
+                Node::Concat(w) if alt => {
+                    let id = self.next_id;
+                    self.next_id += 1;
+                    R { id, k: RK::Concat(self.seq(w, fl, false)) }
+                }
+                Node::SetFlags(on, off) => {
+                    let id = self.next_id;
+                    self.next_id += 1;
+                    apply_flags(fl, on, off);
+                    R { id, k: RK::Empty }
+                }
+                other => self.c(other, *fl),
+            })
+            .collect()
+    }
+
     fn c(&mut self, n: &Node, fl: Fl) -> R {
         let id = self.next_id;
         self.next_id += 1;
@@ -78,8 +99,15 @@ impl Comp {
                 (A::EndText, true) => A::EndLine,
                 (a, _) => *a,
             }),
-            Node::Concat(v) => RK::Concat(v.iter().map(|c| self.c(c, fl)).collect()),
-            Node::Alt(v) => RK::Alt(v.iter().map(|c| self.c(c, fl)).collect()),
+            Node::Concat(v) => {
+                let mut f = fl;
+                RK::Concat(self.seq(v, &mut f, false))
+            }
+            Node::Alt(v) => {
+                let mut f = fl;
+                RK::Alt(self.seq(v, &mut f, true))
+            }
+            Node::SetFlags(..) => RK::Empty,
             Node::Group(c) => {
                 self.next_group += 1;
                 let g = self.next_group;
@@ -108,22 +136,26 @@ impl Comp {
             Node::GroupExists(g) => RK::GroupExists(*g),
             Node::Flags(on, off, c) => {
                 let mut f2 = fl;
-                for (s, v) in [(on, true), (off, false)] {
-                    for ch in s.chars() {
-                        match ch {
-                            'i' => f2.i = v,
-                            'm' => f2.m = v,
-                            's' => f2.s = v,
-                            'U' => f2.u = v,
-                            _ => {}
-                        }
-                    }
-                }
+                apply_flags(&mut f2, on, off);
                 // transparent: the flag node itself matches what its body matches
                 return R { id, k: RK::Concat(vec![self.c(c, f2)]) };
             }
         };
         R { id, k }
+    }
+}
+
+fn apply_flags(f: &mut Fl, on: &str, off: &str) {
+    for (s, v) in [(on, true), (off, false)] {
+        for ch in s.chars() {
+            match ch {
+                'i' => f.i = v,
+                'm' => f.m = v,
+                's' => f.s = v,
+                'U' => f.u = v,
+                _ => {}
+            }
+        }
     }
 }
 
